@@ -68,6 +68,14 @@ def law_int24(p):
     return [C.Int24ul, C.ByteSwapped(C.Int24ub), C.BytesInteger(3, swapped=True), C.ByteSwapped(C.BytesInteger(3))], 3, "int"
 
 
+def law_byteswapped_ctx(p):
+    """ByteSwapped(x) presents x with its bytes reversed whatever x is - also when x takes its own byte order from the context"""
+    n, signed = p
+    return [C.ByteSwapped(C.BytesInteger(n, signed=signed, swapped=this._params.c)),
+            C.BytesInteger(n, signed=signed, swapped=lambda ctx: not ctx._params.c),
+            C.Transformed(C.BytesInteger(n, signed=signed, swapped=this._params.c), lambda b: b[::-1], n, lambda b: b[::-1], n)], n, "int"
+
+
 def law_alias(p):
     nbytes, signed, endian = p
     name = "Int%d%s%s" % (8 * nbytes, "s" if signed else "u", endian)
@@ -261,7 +269,7 @@ SUBS = {
     "Int24ub": lambda: C.Int24ub, "Computed": lambda: C.Computed(7),
 }
 
-LAWS = {"bytesint_bits": law_bytesint_bits, "int24": law_int24, "alias": law_alias, "short": law_short, "floatalias": law_floatalias,
+LAWS = {"byteswapped-ctx": law_byteswapped_ctx, "bytesint_bits": law_bytesint_bits, "int24": law_int24, "alias": law_alias, "short": law_short, "floatalias": law_floatalias,
         "bitalias": law_bitalias, "optional": law_optional, "if": law_if, "if-member": law_if_member, "padding": law_padding, "prefixedarray": law_prefixedarray, "prefixedarray-lazyparent": law_prefixedarray_lazyparent,
         "bitstruct": law_bitstruct, "alignedstruct": law_alignedstruct, "enum": law_enum, "hex": law_hex, "operators": law_operators,
         "restreamed": law_restreamed}
@@ -275,6 +283,9 @@ def instances():
             for swapped in (False, True):
                 out.append(("bytesint_bits", [n, signed, swapped]))
     out += [("int24", [False]), ("int24", [True])]
+    for nbytes in (2, 3, 4):
+        for signed in (False, True):
+            out.append(("byteswapped-ctx", [nbytes, signed]))
     for nbytes in (1, 2, 3, 4, 8):
         for signed in (False, True):
             for endian in "bln":
@@ -415,6 +426,8 @@ def campaign_enum(ctx):
         sides, layout, vkind = LAWS[law](params)
         where = (law, params)
         kws = [dict(c=1), dict(c=0), dict(c=3)] if (law == "if" and params[0] in ("this", "lambda")) or (law == "operators" and params[0] == "getitem-this") else [{}]
+        if law == "byteswapped-ctx":
+            kws = [dict(c=False), dict(c=True), dict(c=0), dict(c=1)]
         for kw in kws:
             for data in layout_inputs(layout, ctx.thorough):
                 r = compare(sides, "parse", data, kw, where)
